@@ -75,6 +75,7 @@ class RemoteStub:
         self.requests = []  # every request mosaik sent: [func, args, kwargs]
         self.next_id = 1000
         self.cb_waiting = {}  # msg id of a call-back -> continuation
+        self.deferred = []  # SE / DE records waiting for the scheduler to receive the reply
         ctx.stubs[sid] = self
 
     # ---- mosaik -> simulator
@@ -149,11 +150,13 @@ class RemoteStub:
                 self.fail(mid, rep.exc)
                 return
             res = rep.value
+            # the reply becomes visible to the scheduler when RemoteProxy.send() returns in the simulator's own process,
+            # not when the simulator writes it: the SE / DE record is made there (RecordingRemoteProxy), the linearization point
             if p.kind == "step":
                 nk, n = _enc_next(res)
-                ctx.record({"k": "SE", "s": self.sid, "nk": nk, "n": n, "nodata": self.sid not in ctx.has_out})
+                self.deferred.append({"k": "SE", "s": self.sid, "nk": nk, "n": n, "nodata": self.sid not in ctx.has_out})
             else:
-                ctx.record(_de_event(self.sid, res, ctx.steptime[self.sid]))
+                self.deferred.append(_de_event(self.sid, res, ctx.steptime[self.sid]))
             self.reply(mid, res)
             if rep.fault == "eof_idle":
                 # the simulator process dies after having answered (no request outstanding)
@@ -205,11 +208,29 @@ class RemoteStub:
         self.eof()
 
 
+class RecordingRemoteProxy(RemoteProxy):
+    """The shipped RemoteProxy; only adds the trace record at the point where a reply reaches the scheduler."""
+
+    _stub = None
+
+    async def send(self, request):
+        try:
+            return await super().send(request)
+        finally:
+            st = self._stub
+            if st is not None and st.deferred:
+                recs, st.deferred = st.deferred, []
+                for ev in recs:
+                    st.ctx.record(ev)
+
+
 async def _starter(mosaik_config, sim_name, sim_config, mosaik_remote):
     ctx = drive.CTX
     stub = RemoteStub(ctx, sim_name)
     channel = Channel(stub.reader, stub.writer, name=sim_name)
-    return RemoteProxy(channel, mosaik_remote)
+    proxy = RecordingRemoteProxy(channel, mosaik_remote)
+    proxy._stub = stub
+    return proxy
 
 
 StarterCollection()["vremote"] = _starter
